@@ -66,6 +66,7 @@ def install(ctx, repo, probes):
               "shift/basic", "shift/ext", "shift/expanded", "shift/no-zone",
               "shift/utc", "shift/negative-offset", "shift/multi-offset",
               "shift/nominal-offset", "shift/ref-env", "shift/ref-option",
+              "shift/ref-option-over-env", "shift/plus-signed-offset",
               "shift/print-format", "shift/parse-format",
               "shift/print-strftime", "shift/print-strftime-fallback",
               "shift/print-strftime-fallback-week-date", "diff/plain", "diff/offsets",
@@ -299,6 +300,8 @@ def spell_offset(rng, notation, nominal_ok=True):
 def offset_args(rng, texts, second=False):
     out = []
     for t in texts:
+        if not t.startswith("-") and rng.random() < 0.2:
+            t = "+" + t       # the documented explicit sign
         if second:
             style = rng.choice(("--offset2", "-2", "--offset2="))
         else:
@@ -365,6 +368,10 @@ def make_shift(rng, mode_how):
     elif refmode < 0.16:
         argv += [rng.choice(("--ref", "-R")), text]
         item = "ref"
+        if refmode < 0.12:
+            # the option says which reference point, whatever the variable
+            env["ISODATETIMEREF"] = rng.choice((
+                "20371225T000000Z", "1999-12-31T23:59:59+01:00"))
     else:
         item = text
     pieces = [[item], offset_args(rng, [o[0] for o in offs])]
@@ -410,10 +417,14 @@ def make_shift(rng, mode_how):
         classes.append("shift/nominal-offset")
     if how == "both":
         classes.append("calendar/option-over-env/" + mode)
-    if "ISODATETIMEREF" in env:
+    if "ISODATETIMEREF" in env and env["ISODATETIMEREF"] == text:
         classes.append("shift/ref-env")
+    elif "ISODATETIMEREF" in env:
+        classes.append("shift/ref-option-over-env")
     if item == "ref" and "ISODATETIMEREF" not in env:
         classes.append("shift/ref-option")
+    if any(a.startswith("+P") or "=+P" in a for a in argv):
+        classes.append("shift/plus-signed-offset")
     return {"op": "run", "argv": argv, "env": env, "local": list(local),
             "expect": {"stdout": expect}, "classes": classes,
             "nontrivial": bool(offs)}
